@@ -51,28 +51,40 @@ func c08Tree() afero.Fs {
 // snapshot of everything that is not inside `root` (cleaned, rooted): path, kind, bytes, mode, mtime
 func outsideSnapshot(m afero.Fs, root string) string {
 	var lines []string
-	afero.Walk(m, "/", func(p string, fi os.FileInfo, err error) error {
+	// own bounded walk: an operation that escaped the root may have left the source tree cyclic
+	// (a directory listing itself), on which afero.Walk would not terminate
+	var visit func(p string, depth int)
+	visit = func(p string, depth int) {
+		fi, err := m.Stat(p)
 		if err != nil {
 			lines = append(lines, p+" walk-error "+err.Error())
-			return nil
+			return
 		}
-		if p == root || strings.HasPrefix(p, strings.TrimSuffix(root, "/")+"/") {
-			return nil
+		if depth > 40 {
+			lines = append(lines, p+" tree-too-deep (cyclic?)")
+			return
 		}
-		// ancestors of root are outside too, but their mtime/listing legitimately changes when
-		// root's own entry changes; only their existence and mode are recorded
-		if strings.HasPrefix(root, strings.TrimSuffix(p, "/")+"/") {
+		inside := p == root || strings.HasPrefix(p, strings.TrimSuffix(root, "/")+"/")
+		switch {
+		case inside:
+		case strings.HasPrefix(root, strings.TrimSuffix(p, "/")+"/"):
+			// ancestors of root are outside too, but their mtime/listing legitimately changes when
+			// root's own entry changes; only their existence and mode are recorded
 			lines = append(lines, fmt.Sprintf("%s anc %v", p, fi.Mode()))
-			return nil
-		}
-		if fi.IsDir() {
+		case fi.IsDir():
 			lines = append(lines, fmt.Sprintf("%s dir %v %d", p, fi.Mode(), fi.ModTime().UnixNano()))
-		} else {
+		default:
 			b, _ := afero.ReadFile(m, p)
 			lines = append(lines, fmt.Sprintf("%s file %v %d %x", p, fi.Mode(), fi.ModTime().UnixNano(), b))
 		}
-		return nil
-	})
+		if fi.IsDir() && !inside {
+			fis, _ := afero.ReadDir(m, p)
+			for _, c := range fis {
+				visit(filepath.Join(p, c.Name()), depth+1)
+			}
+		}
+	}
+	visit("/", 0)
 	sort.Strings(lines)
 	return strings.Join(lines, "\n")
 }
@@ -242,6 +254,16 @@ func c08Op(t []string) string {
 			var b []byte
 			b, err = afero.ReadFile(fs, name)
 			got.Write(b)
+		case "symlink": // both arguments are names
+			if l, ok := fs.(afero.Linker); ok {
+				err = l.SymlinkIfPossible(name, name2)
+			}
+		case "readlink":
+			if l, ok := fs.(afero.LinkReader); ok {
+				var s string
+				s, err = l.ReadlinkIfPossible(name)
+				got.WriteString(s)
+			}
 		case "readdir":
 			var fis []os.FileInfo
 			fis, err = afero.ReadDir(fs, name)
@@ -252,6 +274,31 @@ func c08Op(t []string) string {
 		res = errClass(err)
 	}
 	leak := ""
+	if method == "symlink" || method == "readlink" {
+		// a name that leaves the root is reported as not existing, whichever argument it is and whether or
+		// not the source supports links
+		escOne := func(root, n string) (string, bool) {
+			r := filepath.Clean(root)
+			p := filepath.Clean(filepath.Join(r, n))
+			return p, !segPrefix(r, p)
+		}
+		esc := func(n string) bool {
+			if kind == "nest" { // resolved by the inner file system first, then by the outer one
+				parts := strings.SplitN(root, "|", 2)
+				p1, e1 := escOne(parts[1], n)
+				if e1 {
+					return true
+				}
+				_, e2 := escOne(parts[0], p1)
+				return e2
+			}
+			_, e := escOne(root, n)
+			return e
+		}
+		if (esc(name) || method == "symlink" && esc(name2)) && res != "notexist" {
+			leak += " LEAK:escaping-name-accepted(" + res + ")"
+		}
+	}
 	inRegion := func(p string) bool { return p == croot || strings.HasPrefix(p, strings.TrimSuffix(croot, "/")+"/") }
 	for k, p := range []string{"/basement/secret", "/basement/sub/x", "/other/secret", "/secret", "/base.txt"} {
 		if !inRegion(p) && strings.Contains(got.String(), fmt.Sprintf("%s%d", canary, k+1)) {
@@ -396,7 +443,7 @@ func segPrefix(root, p string) bool {
 }
 
 var c08Methods = []string{"stat", "open", "openfile-ro", "openfile-rw", "openfile-trunc", "create", "mkdir", "mkdirall",
-	"remove", "removeall", "chmod", "chown", "chtimes", "lstat", "readfile", "readdir"}
+	"remove", "removeall", "chmod", "chown", "chtimes", "lstat", "readfile", "readdir", "readlink"}
 
 func spellings(alpha []string, maxSeg int) []string {
 	var res []string
@@ -514,6 +561,7 @@ func c08Exhaustive(tier string) []corr.Case {
 			for _, a := range short {
 				for _, b := range short {
 					add(fmt.Sprintf("op %s %s rename %s %s", r.kind, corr.HexS(r.root), corr.HexS(a), corr.HexS(b)))
+					add(fmt.Sprintf("op %s %s symlink %s %s", r.kind, corr.HexS(r.root), corr.HexS(a), corr.HexS(b)))
 				}
 			}
 		}
